@@ -88,9 +88,17 @@ Definition save_m (t : topdoc) : list entry * manifest :=
 (* ---------------- addObject ---------------- *)
 Definition sOBJECT := s2l "/Object ".
 (* returns the updated child (folder set) and the reference string *)
-Definition add_object (parent_folder : str) (nkids_before : nat) (child : odoc) (name : option str) : odoc * str :=
+(* the first free "Object N" of the parent: N starts at the number of children after the append; a folder may be taken because
+   a loaded package numbered it so or because a caller named it so *)
+Fixpoint fresh_folder (fuel : nat) (pf : str) (taken : list str) (n : nat) : str :=
+  let f := pf ++ sOBJECT ++ dec (N.of_nat n) in
+  match fuel with
+  | O => f
+  | S k => if existsb (str_eqb f) taken then fresh_folder k pf taken (S n) else f
+  end.
+Definition add_object (parent_folder : str) (taken : list str) (child : odoc) (name : option str) : odoc * str :=
   let f := match name with
-           | None => parent_folder ++ sOBJECT ++ dec (N.of_nat (S nkids_before))
+           | None => fresh_folder (S (List.length taken)) parent_folder taken (S (List.length taken))
            | Some n => match n with 47 :: _ => n | _ => cSLASHc :: n end
            end in
   (match child with ODoc mt _ hs p k => ODoc mt f hs p k end, 46 :: f).
